@@ -15,7 +15,7 @@ func init() {
 		Property: "C16",
 		Explanation: "VSA/SEE rules on plugin.Prefix.lifetimes and plugin.Route.lifetime, per path: R-C16-1 non-deprecated ⇒ the configured constants; deprecated ⇒ with one clock read `now` and T = Epoch.Add(<the like-named configured lifetime>), the result is 0 on paths where now ≥ T (Equal ∨ After / ¬Before) and T.Sub(now) on the complementary paths, same T and same now in test and subtraction " +
 			"(hence result = max(0, T−now): non-negative, zero from the deadline on, non-increasing in now; preferred ≤ valid at every instant because both use one now and T_p ≤ T_v by config); " +
-			"R-C16-2 Epoch is the epoch parameter threaded from config.Parse, which cmd/corerad calls once with time.Now(); nothing else writes Epoch; R-C16-3 the parser rejects deprecated stanzas with an infinite lifetime R-C16-4 the lifetimes stored into the options are the results of lifetime()/lifetimes() on every path of Apply (static and wildcard); R-C16-5 no module code outside package plugin stores the advertised lifetime fields of prefix and route options; R-C16-6 only the configuration parser writes Prefix.Deprecated / Route.Deprecated.",
+			"R-C16-2 Epoch is the epoch parameter threaded from config.Parse, which cmd/corerad calls once with time.Now(); nothing else writes Epoch; R-C16-3 the parser rejects deprecated stanzas with an infinite lifetime R-C16-4 the lifetimes stored into the options are the results of lifetime()/lifetimes() on every path of Apply (static and wildcard); R-C16-5 no module code outside package plugin stores the advertised lifetime fields of prefix and route options; R-C16-6 only the configuration parser writes Prefix.Deprecated / Route.Deprecated. R-C16-4 also (shared): buildRA generates the RA anew on every call, so the countdown is what is advertised.",
 		Assumptions: []string{
 			"Go type checker and go/ssa construction are correct",
 			"time.Time.Equal/After/Before/Sub/Add have their documented meaning; preferred ≤ valid is established by C02",
